@@ -13,24 +13,31 @@ VARIABLES nops, hist
 mvars == <<vars, nops, hist>>
 
 MCDims == {<<0, 0>>, <<1, 1>>, <<2, 3>>, <<0, 2>>}
+MCDimsMove == {<<0, 0>>, <<2, 3>>}      \* for the depth-3 export that reaches assignment between images of unequal allocators
 H == Handles
 DimsOf(d) == d
 Init == /\ img = [x \in H \cup {T} |-> Dead] /\ heap = <<>> /\ elems = <<>> /\ errs = {} /\ nextblk = 1
         /\ fault = "none" /\ last = "init" /\ nops = 0 /\ hist = <<>>
 
 Log(op) == /\ nops' = nops + 1 /\ hist' = Append(hist, op) /\ last' = op.op
+\* which element construction of the call throws: the first, the middle or the last (0 = none)
+CF(n, f) == IF f = "ctor" /\ fault = "none" THEN {1, (n + 1) \div 2, n} ELSE {0}
 SwapOk(a1, a2) == POCS \/ a1 = a2 \/ ~ExcludeOpenFindings
 
 Ctor == \E x \in H, d \in DimSet, al \in AlignSet, a \in AllocSet :
           /\ ~IsLive(x)
           /\ \/ (Put(I_Create(St, x, d[1], d[2], al, a)) /\ fault' = fault)
              \/ (fault = "none" /\ Needed(d[1], d[2], al) > 0 /\ Put(St) /\ fault' = "alloc")     \* constructor throws: no object
-          /\ Log([op |-> "Ctor", h |-> x, w |-> d[1], hh |-> d[2], al |-> al, a |-> a, fail |-> fault' # fault])
+             \/ (fault = "none" /\ d[1] * d[2] > 0 /\ Put(St) /\ fault' = "ctor")                \* an element constructor throws: no object
+          /\ \E k \in CF(d[1] * d[2], fault') :
+                Log([op |-> "Ctor", h |-> x, w |-> d[1], hh |-> d[2], al |-> al, a |-> a, fail |-> fault' = "alloc" /\ fault = "none", cfail |-> k])
 CopyCtor == \E x, y \in H :
           /\ ~IsLive(x) /\ IsLive(y)
           /\ \/ (Put(I_CopyOf(St, x, y)) /\ fault' = fault)
              \/ (fault = "none" /\ Needed(img[y].w, img[y].h, img[y].align) > 0 /\ Put(St) /\ fault' = "alloc")
-          /\ Log([op |-> "CopyCtor", h |-> x, from |-> y, fail |-> fault' # fault])
+             \/ (fault = "none" /\ img[y].w * img[y].h > 0 /\ Put(St) /\ fault' = "ctor")
+          /\ \E k \in CF(img[y].w * img[y].h, fault') :
+                Log([op |-> "CopyCtor", h |-> x, from |-> y, fail |-> fault' = "alloc" /\ fault = "none", cfail |-> k])
 MoveCtor == \E x, y \in H :
           /\ ~IsLive(x) /\ IsLive(y)
           /\ Put(I_MoveCtor(St, x, y)) /\ fault' = fault
@@ -41,11 +48,18 @@ CopyAssign == \E x, y \in H :
           /\ \/ (Put(I_CopyAssign(St, x, y)) /\ fault' = fault)
              \/ (fault = "none" /\ ~(img[x].w = img[y].w /\ img[x].h = img[y].h) /\ Needed(img[y].w, img[y].h, img[y].align) > 0
                  /\ Put(St) /\ fault' = "alloc")
-          /\ Log([op |-> "CopyAssign", h |-> x, from |-> y, fail |-> fault' # fault])
+             \* the temporary copy fails in an element constructor: the target is unchanged (same dimensions: assignment, nothing is constructed)
+             \/ (fault = "none" /\ ~(img[x].w = img[y].w /\ img[x].h = img[y].h) /\ img[y].w * img[y].h > 0 /\ Put(St) /\ fault' = "ctor")
+          /\ \E k \in CF(img[y].w * img[y].h, fault') :
+                Log([op |-> "CopyAssign", h |-> x, from |-> y, fail |-> fault' = "alloc" /\ fault = "none", cfail |-> k])
 MoveAssign == \E x, y \in H :
           /\ IsLive(x) /\ IsLive(y) /\ x # y
-          /\ Put(I_MoveAssign(St, x, y)) /\ fault' = fault
-          /\ Log([op |-> "MoveAssign", h |-> x, from |-> y, fail |-> FALSE])
+          /\ \/ (Put(I_MoveAssign(St, x, y)) /\ fault' = fault)
+             \* unequal allocators that do not propagate: the pixels are copied with the target's allocator first; if that fails nothing changes
+             \/ (fault = "none" /\ ~POCMA /\ img[x].alloc # img[y].alloc /\ Needed(img[y].w, img[y].h, img[x].align) > 0 /\ Put(St) /\ fault' = "alloc")
+             \/ (fault = "none" /\ ~POCMA /\ img[x].alloc # img[y].alloc /\ img[y].w * img[y].h > 0 /\ Put(St) /\ fault' = "ctor")
+          /\ \E k \in CF(img[y].w * img[y].h, fault') :
+                Log([op |-> "MoveAssign", h |-> x, from |-> y, fail |-> fault' = "alloc" /\ fault = "none", cfail |-> k])
 \* (both spellings of each recreate: with and without a fill value; the storage protocol is the same)
 Recreate == \E x \in H, d \in DimSet, al \in AlignSet, fill \in BOOLEAN :
           /\ IsLive(x)
@@ -53,7 +67,12 @@ Recreate == \E x \in H, d \in DimSet, al \in AlignSet, fill \in BOOLEAN :
           /\ \/ (Put(I_Recreate(St, x, d[1], d[2], al, 0, FALSE)) /\ fault' = fault)
              \/ (fault = "none" /\ I_RecreateAllocates(St, x, d[1], d[2], al, 0, FALSE)
                  /\ Put(I_RecreateFailed(St, x, al)) /\ fault' = "alloc")
-          /\ Log([op |-> IF fill THEN "RecreateFill" ELSE "Recreate", h |-> x, w |-> d[1], hh |-> d[2], al |-> al, fail |-> fault' # fault])
+             \* an element constructor throws: in the temporary (target unchanged) or in place (the target holds no pixels any more)
+             \/ (fault = "none" /\ d[1] * d[2] > 0 /\ I_RecreateDoesSomething(St, x, d[1], d[2], al, 0, FALSE)
+                 /\ Put(IF I_RecreateAllocates(St, x, d[1], d[2], al, 0, FALSE) THEN I_RecreateFailed(St, x, al) ELSE I_RecreateCtorFailedInPlace(St, x, al))
+                 /\ fault' = "ctor")
+          /\ \E k \in CF(d[1] * d[2], fault') :
+                Log([op |-> IF fill THEN "RecreateFill" ELSE "Recreate", h |-> x, w |-> d[1], hh |-> d[2], al |-> al, fail |-> fault' = "alloc" /\ fault = "none", cfail |-> k])
 RecreateAlloc == \E x \in H, d \in DimSet, al \in AlignSet, a \in AllocSet, fill \in BOOLEAN :
           /\ IsLive(x)
           /\ (I_RecreateAllocates(St, x, d[1], d[2], al, a, TRUE) => SwapOk(img[x].alloc, a))
